@@ -147,6 +147,9 @@ type step struct {
 	// instances built the same way must look the same, and from then on the instance is held to it like any other.
 	Corner bool
 	Ctor   bool
+	// Solo: a step that builds the instance it examines itself; it takes part in the histories of at most two steps
+	// (alone, after any step, before any step) - what other instances did before or do afterwards is all that can matter
+	Solo bool
 }
 
 func testDoc() *sbom.Document {
@@ -459,6 +462,39 @@ func steps(thorough bool) []step {
 		w.rs = append(w.rs, &rinst{r: r2, rec: rec2, want: rcfg{FmtOpt: "v", Ret: ro1}})
 		return ""
 	}})
+	// a reader fixed to one format (set in place: there is no constructor option for it) and per-call options that
+	// leave the format empty (= detect) or name another one: the per-call value decides that call, the instance keeps its
+	// own
+	for _, fixed := range []formats.Format{formats.CDX15JSON, formats.SPDX23JSON} {
+		fixed := fixed
+		out = append(out, step{Solo: true, Name: fmt.Sprintf("reader fixed to %s: per-call options without format / with the other format", fam2(fixed)), Do: func(w *world) string {
+			other := formats.SPDX23JSON
+			if fixed == formats.SPDX23JSON {
+				other = formats.CDX15JSON
+			}
+			r := reader.New()
+			r.Options.Format = fixed
+			in, err := rw.Write(testDoc(), other, 2)
+			if err != nil {
+				return "harness: " + err.Error()
+			}
+			wantNodes := len(testDoc().NodeList.Nodes)
+			for _, pc := range []formats.Format{"", other} {
+				d, err := r.ParseStreamWithOptions(bytes.NewReader(in), &reader.Options{Format: pc, UnserializeOptions: &native.UnserializeOptions{}})
+				if err != nil || d == nil || d.NodeList == nil || len(d.NodeList.Nodes) != wantNodes {
+					n := -1
+					if d != nil && d.NodeList != nil {
+						n = len(d.NodeList.Nodes)
+					}
+					return fmt.Sprintf("reader fixed to %s, per-call options with format %q, a %s document of %d nodes: got %d nodes, err=%v (the per-call options decide the call)", fixed, pc, other, wantNodes, n, err)
+				}
+				if r.Options.Format != fixed {
+					return fmt.Sprintf("a call with per-call options changed the reader's own format to %q", r.Options.Format)
+				}
+			}
+			return ""
+		}})
+	}
 	// configuring an instance after construction through its exported Options value: only that instance changes
 	out = append(out, step{Name: "last-writer.Options.RenderOptions.Indent = 9 (in place)", Do: func(w *world) string {
 		if len(w.ws) == 0 {
@@ -845,6 +881,15 @@ func Run(c *engine.Ctx) {
 			if all[i].Corner {
 				continue // explored by the value-corners group below
 			}
+			if len(cur) >= 2 {
+				solo := all[i].Solo
+				for _, j := range cur {
+					solo = solo || all[j].Solo
+				}
+				if solo {
+					continue // histories with a self-contained step have at most two steps
+				}
+			}
 			rec(append(cur, i))
 		}
 	}
@@ -889,4 +934,11 @@ func Run(c *engine.Ctx) {
 			}
 		}
 	}
+}
+
+func fam2(f formats.Format) string {
+	if strings.Contains(string(f), "cyclonedx") {
+		return "CycloneDX"
+	}
+	return "SPDX"
 }
